@@ -44,3 +44,13 @@ where ScratchOwned<BE>: ScratchOwnedAlloc<BE> + ScratchOwnedBorrow<BE> {
     }
     s
 }
+
+/// ScalarZnx from n*cols words
+pub fn mk_scalar_znx(n: usize, cols: usize, flat: &[i64]) -> poulpy_hal::layouts::ScalarZnx<Vec<u8>> {
+    assert_eq!(flat.len(), n * cols);
+    let mut v = poulpy_hal::layouts::ScalarZnx::alloc(n, cols);
+    let bytes = words_to_bytes(flat);
+    let d: &mut Vec<u8> = v.data_mut();
+    d[..bytes.len()].copy_from_slice(&bytes);
+    v
+}
